@@ -320,3 +320,83 @@ def _reentrant(event):
 
 for _e in ('success', 'failure', 'drop'):
     _reentrant(_e)
+
+
+# --------------------------------------------------------------------------------------- per-step contracts, data of ANY length
+
+RR = MEM + ':_ReadRequest'
+WR = MEM + ':_WriteRequest'
+
+
+@contract('C06', 'step.read.add_data', [RR + '.add_data', RR + '._request_new_chunk'],
+          clause='inductive step of a read of ANY length: with `data` holding the device bytes [addr0, cur) a reply for `cur` with the next n device '
+                 'bytes extends it to [addr0, cur+n); a reply for any other address changes nothing and sends nothing; the request is complete '
+                 'exactly when no byte is left, and then data equals the device bytes of the whole range; the next request asks for at most 20 '
+                 'bytes at cur+n')
+def step_read(c):
+    M = c.view('M', 'bytes')            # device bytes of the requested range, any length
+    c.int('addr0', 0, 2 ** 32 - 1), c.int('k', 0), c.int('n', 0, 24), c.int('addr', 0, 2 ** 32 - 1), c.int('mid', 0, 255)
+    c.require('k + n <= len(M) and addr0 + len(M) <= 2 ** 32 - 1 and k < len(M)')
+    cf = c.ext('cf')
+    mem = c.ext('mem', attrs={'id': c.get('mid')})
+    rr = c.new(RR, mem, c.get('addr0'), c.snapshot('len0', 'len(M)'), cf)
+    c.set(rr, 'data', c.snapshot('d0', 'bytearray(M[0:k])'))
+    c.set(rr, '_bytes_left', c.snapshot('left0', 'len(M) - k'))
+    c.set(rr, '_current_addr', c.snapshot('cur0', 'addr0 + k'))
+    c.let('rr', rr)
+    # the device answers a chunk request for cur0 with the next n bytes (n >= 1 unless nothing is left); other replies carry anything
+    on_time = c.choice('reply_is_for_current_address', [True, False])
+    if on_time:
+        c.require('addr == cur0 and n >= 1')
+        c.snapshot('chunk', 'M[k:k + n]')
+    else:
+        c.require('addr != cur0')
+        c.let('chunk', c.view('junk', 'bytes', maxlen=24))
+    c.call((rr, 'add_data'), c.get('addr'), c.get('chunk'))
+    c.ensure('no-exception', 'raised is None')
+    if on_time:
+        c.ensure('data-extended-by-exactly-the-device-bytes', 'bytes(rr.data) == M[0:k + n] and rr._current_addr == addr0 + k + n and rr._bytes_left == len(M) - k - n')
+        c.ensure('complete-iff-nothing-left', 'iff(result is True, k + n == len(M)) and (result is True or result is False)')
+        c.ensure('complete-means-whole-range', 'implies(result is True, bytes(rr.data) == M)')
+        c.ensure('next-request-iff-incomplete', "iff(len(sent('cf.send_packet')) == 1, k + n < len(M)) and len(sent('cf.send_packet')) <= 1")
+        if len(c.get('trace')) == 1:
+            c.snapshot('pk', "sent('cf.send_packet')[0][1][0]")
+            c.ensure('next-request-layout', "pk.port == 4 and pk.channel == 1 and bytes(pk.data) == pack('<BIB', mid, addr0 + k + n, min(len(M) - k - n, 20))")
+    else:
+        c.ensure('other-address-changes-nothing', 'result is None and bytes(rr.data) == M[0:k] and rr._current_addr == cur0 and rr._bytes_left == left0 and len(trace) == 0')
+
+
+@contract('C06', 'step.write.write_done', [WR + '.write_done', WR + '._write_new_chunk'],
+          clause='inductive step of a write of ANY length: with data0[off2:] still to send and the chunk data0[off:off2] in flight at address '
+                 'addr0+off, its acknowledgement sends exactly the next chunk data0[off2:min(off2+25, len)] at address addr0+off2 in a message of at '
+                 'most 30 bytes, or completes the request when nothing is left; an acknowledgement for another address changes nothing')
+def step_write(c):
+    D = c.view('D', 'bytes')
+    c.int('addr0', 0, 2 ** 32 - 1), c.int('off', 0), c.int('off2', 0), c.int('addr', 0, 2 ** 32 - 1), c.int('mid', 0, 255)
+    c.require('off <= off2 and off2 <= len(D) and off2 - off <= 25 and addr0 + len(D) <= 2 ** 32 - 1')
+    cf = c.ext('cf')
+    mem = c.ext('mem', attrs={'id': c.get('mid')})
+    wr = c.new(WR, mem, c.get('addr0'), D, cf)
+    c.set(wr, '_data', c.snapshot('rest0', 'D[off2:]'))
+    c.set(wr, '_current_addr', c.snapshot('cur0', 'addr0 + off'))
+    c.set(wr, '_addr_add', c.snapshot('add0', 'off2 - off'))
+    c.set(wr, '_bytes_left', c.snapshot('left0', 'len(D) - off2'))
+    c.let('wr', wr)
+    on_time = c.choice('ack_is_for_current_address', [True, False])
+    c.require('addr == cur0' if on_time else 'addr != cur0')
+    c.call((wr, 'write_done'), c.get('addr'))
+    c.ensure('no-exception', 'raised is None')
+    if on_time:
+        c.ensure('complete-iff-nothing-left', 'iff(result is True, off2 == len(D)) and (result is True or result is False)')
+        c.ensure('next-chunk-iff-incomplete', "iff(len(sent('cf.send_packet')) == 1, off2 < len(D)) and len(sent('cf.send_packet')) <= 1")
+        if len(c.get('trace')) == 1:
+            c.snapshot('pk', "sent('cf.send_packet')[0][1][0]")
+            c.snapshot('off3', 'min(off2 + 25, len(D))')
+            c.ensure('next-chunk-layout', "pk.port == 4 and pk.channel == 2 and bytes(pk.data[0:5]) == pack('<BI', mid, addr0 + off2) and bytes(pk.data[5:]) == D[off2:off3]")
+            c.ensure('message-within-30-bytes', 'len(pk.data) <= 30')
+            c.ensure('state-advanced', 'bytes(wr._data) == D[off3:] and wr._current_addr == addr0 + off2 and wr._addr_add == off3 - off2')
+            c.ensure('retry-pattern', "sent('cf.send_packet')[0][2]['expected_reply'] == tuple(pk.data[0:5])")
+        else:
+            c.ensure('state-kept-when-complete', 'wr._current_addr == cur0 and bytes(wr._data) == D[off2:]')
+    else:
+        c.ensure('other-address-changes-nothing', 'result is None and bytes(wr._data) == D[off2:] and wr._current_addr == cur0 and wr._addr_add == add0 and len(trace) == 0')
